@@ -237,12 +237,19 @@ def check_array_like(run, f, rule='R10a'):
 
 
 def _len_enforced(f, p, dim):
-    for n in own_walk(f.node):
-        if isinstance(n, ast.If) and matches('len(%s) == %d' % (p, dim), n.test) is not None:
-            arms, els = if_chain(n)
-            if els is not None and ends_in_raise(els):
-                return True
-    return False
+    """every value return of f is reached only where len(p) == dim has been established (an if/else whose else raises, a guard
+    `if len(p) != dim: raise`, an assert ...): decided on the must-facts, whatever the shape of the test"""
+    cfg = CFG(f.node)
+    facts = must_facts(cfg)
+    reach = cfg.reachable()
+    rets = [r for r in own_walk(f.node) if isinstance(r, ast.Return) and r.value is not None and cfg.node_of(r) is not None and cfg.node_of(r).id in reach]
+    if not rets:
+        return False
+    for r in rets:
+        fs = facts.get(cfg.node_of(r).id, frozenset())
+        if not any(fc[1] and matches('len(%s) == %d' % (p, dim), fc[2].ast) is not None for fc in fs):
+            return False
+    return True
 
 
 def check_scalar_iteration(run, f, rule='R10s'):
